@@ -20,6 +20,7 @@ size_t g_n;
 size_t g_k;
 int g_t;
 int g_u;  /* second arbitrary token index, g_t < g_u: postconditions over every PAIR of tokens */
+int g_fresh; /* ghost flag: this call starts a parse from scratch (pos == 0, toknext == 0), as Data::fromJSON does */
 
 /* parser invariant */
 /* The token array object has MAXT elements and num_tokens <= MAXT is symbolic: for num_tokens == MAXT the array
@@ -58,6 +59,9 @@ __CPROVER_ensures(token->type == type && token->start == start && token->end == 
   ? ((a).start < (b).start - TQ(b)) \
   : (((a).end + TQ(a) <= (b).start - TQ(b)) || \
      (((a).type == JSMN_OBJECT || (a).type == JSMN_ARRAY) && (a).start < (b).start - TQ(b) && (b).end != -1 && (b).end + TQ(b) < (a).end)))
+/* a parse from scratch of a text that begins with '{' or '[': token 0, once handed out, is that container */
+#define FIRST_OK(p, js, toks) ((g_fresh && ((js)[0] == '{' || (js)[0] == '[')) ==> \
+  (((p)->pos == 0 && (p)->toknext == 0) || ((p)->toknext >= 1 && (toks)[0].start == 0 && (toks)[0].type == ((js)[0] == '{' ? JSMN_OBJECT : JSMN_ARRAY))))
 #define TOKEQ_OLD(toks, k) ((toks)[k].type == __CPROVER_old((toks)[k].type) && (toks)[k].start == __CPROVER_old((toks)[k].start) && (toks)[k].end == __CPROVER_old((toks)[k].end) && (toks)[k].size == __CPROVER_old((toks)[k].size))
 
 /* the next free token (index toknext, unchanged on failure) keeps its contents */
@@ -135,6 +139,7 @@ __CPROVER_requires(g_n <= MAXN && js[g_n] == 0 && num_tokens <= MAXT)
 __CPROVER_requires(PI(parser, num_tokens))
 __CPROVER_requires(SIZES(parser, tokens))
 __CPROVER_requires(0 <= g_t && g_t < g_u && g_u < MAXT)
+__CPROVER_requires(g_fresh ==> (parser->pos == 0 && parser->toknext == 0))
 __CPROVER_requires(g_t < parser->toknext ==> TOKWF(tokens[g_t], parser->pos))
 __CPROVER_requires(g_u < parser->toknext ==> (TOKWF(tokens[g_u], parser->pos) && LAMINAR(tokens[g_t], tokens[g_u])))
 __CPROVER_assigns(parser->pos, parser->toknext, parser->toksuper, __CPROVER_object_whole(tokens))
@@ -144,6 +149,8 @@ __CPROVER_ensures(__CPROVER_return_value == JSMN_SUCCESS || __CPROVER_return_val
 __CPROVER_ensures(SIZES(parser, tokens))
 /* every token handed out so far has its extent inside the consumed input */
 __CPROVER_ensures(g_t < parser->toknext ==> TOKWF(tokens[g_t], parser->pos))
+/* token 0 of a parse from scratch is the opening container of the text */
+__CPROVER_ensures(FIRST_OK(parser, js, tokens))
 /* every pair of tokens handed out so far is ordered and laminar */
 __CPROVER_ensures(g_u < parser->toknext ==> (TOKWF(tokens[g_u], parser->pos) && LAMINAR(tokens[g_t], tokens[g_u])))
 /* tokens not handed out are untouched: the zeroed sentinel Data::fromJSON relies on survives */
